@@ -3220,7 +3220,7 @@ rfbSendFramebufferUpdate(rfbClientPtr cl,
     sraRect rect;
     int nUpdateRegionRects;
     rfbFramebufferUpdateMsg *fu = (rfbFramebufferUpdateMsg *)cl->updateBuf;
-    sraRegionPtr updateRegion,updateCopyRegion,tmpRegion;
+    sraRegionPtr updateRegion,updateCopyRegion,tmpRegion,requested;
     int dx, dy;
     rfbBool sendCursorShape = FALSE;
     rfbBool sendCursorPos = FALSE;
@@ -3435,6 +3435,7 @@ rfbSendFramebufferUpdate(rfbClientPtr cl,
      sraRgnSubtract(cl->modifiedRegion,updateRegion);
      sraRgnSubtract(cl->modifiedRegion,updateCopyRegion);
 
+     requested = sraRgnCreateRgn(cl->requestedRegion);
      sraRgnMakeEmpty(cl->requestedRegion);
      sraRgnMakeEmpty(cl->copyRegion);
      cl->copyDX = 0;
@@ -3452,7 +3453,19 @@ rfbSendFramebufferUpdate(rfbClientPtr cl,
 	rfbRedrawAfterHideCursor(cl,updateRegion);
       }
       rfbShowCursor(cl);
+      /* The cursor area can lie outside what the client asked for -- after rfbNewFramebuffer
+       * even outside the framebuffer size a client without NewFBSize knows.  That part is
+       * kept as modified and sent once the client asks for it. */
+      tmpRegion = sraRgnCreateRgn(updateRegion);
+      if (sraRgnSubtract(tmpRegion, requested)) {
+        LOCK(cl->updateMutex);
+        sraRgnOr(cl->modifiedRegion, tmpRegion);
+        UNLOCK(cl->updateMutex);
+        sraRgnAnd(updateRegion, requested);
+      }
+      sraRgnDestroy(tmpRegion);
     }
+    sraRgnDestroy(requested);
 
     /*
      * Now send the update.
